@@ -21,6 +21,10 @@ theorem cinv_spin {s s' : State} {r : Role} (hi : CInv s) (h : stepSpin s r = so
   cinv_step3 hi h [stepSpin]
 
 set_option maxHeartbeats 2000000 in
+theorem cinv_deadline {s s' : State} {r : Role} (hi : CInv s) (h : stepDeadline s r = some s') : CInv s' := by
+  cinv_step3 hi h [stepDeadline]
+
+set_option maxHeartbeats 2000000 in
 theorem cinv_ldClosed {s s' : State} {r : Role} (hi : CInv s) (h : stepLdClosed s r = some s') : CInv s' := by
   cinv_step3 hi h [stepLdClosed]
 
